@@ -223,6 +223,12 @@ def run_C08(ctx):
     consts = session_consts(OpSet='{"concat","samevalue","aux"}', LeafSet=MIXED_LEAVES, MaxDepth="1", MaxLen="2", Classes=ALL_CLASSES)
     ctx.tlc_phase("concat-pairs", "Session", consts, invariants=["Refines", "Closed"],
                   require_actions=["ConcatOp", "SameValueOp", "StoreAux"])
+    # fixed-size lists of fixed-size lists over leaves of 2, 4 and 6 numbers: shapes (1,2,3), (1,3,2), (2,2,1), ... which this
+    # phase's instantiation (replay.steps_for_nd) turns, more than half of the time, into ONE three-dimensional NumpyArray with unequal inner dimensions
+    c3 = session_consts(OpSet='{"concat","samevalue","aux"}', MaxDepth="2", MaxLen="3", Classes='{"Regular"}',
+                        LeafSet='{Numpy("int64", [k \\in 1..n |-> k]) : n \\in {2, 4, 6}} \\cup {Numpy("float64", <<1, 2, 3, 4, 5, 6>>)}')
+    ctx.tlc_phase("concat-3d-leaves", "Session", c3, invariants=["Refines", "Closed"], require_actions=["ConcatOp", "WrapRegular", "StoreAux"],
+                  translate=("replay", "steps_for_nd"), sample_cases=(120000 if ctx.quick() else None))
     if not ctx.quick():
         # pairs of depth-2 layouts are too many to enumerate (the exhaustive run did not finish in 25 min): random behaviours
         consts = dict(consts, MaxDepth="2")
